@@ -127,3 +127,82 @@ Fixpoint spec_run {A C} (f : A -> C -> res A) (a : A) (cs : list C) : A :=
   | [] => a
   | c :: r => spec_run f (match f a c with Ok a' => a' | Fail => a end) r
   end.
+
+(* ---- the ledger: every trace may contain [Advance n] steps (n ledgers pass, nothing is
+   called).  A model step may read the current ledger sequence number; an [Advance] changes
+   nothing but that number.  The monitor treats it alike: after an [Advance] every answer must
+   still be the answer of the unchanged reference state - stored state that lapses with time
+   (an entry moved to temporary storage, a shortened TTL) is a violation. ---- *)
+Inductive tcall (C : Type) : Type :=
+| Call (c : C)
+| Advance (n : N).
+Arguments Call {C} c.
+Arguments Advance {C} n.
+
+Section Ledger.
+  Variables St C O Q V : Type.
+  Variable step : N -> St -> C -> res (St * O).      (* first argument: the current ledger *)
+  Variable ans : St -> Q -> V.
+  Variable dflt : O.                                  (* the "outcome" recorded for an Advance *)
+
+  Definition lstep (sl : St * N) (k : tcall C) : res ((St * N) * O) :=
+    match k with
+    | Call c => match step (snd sl) (fst sl) c with
+                | Ok r => Ok ((fst r, snd sl), snd r)
+                | Fail => Fail
+                end
+    | Advance n => Ok ((fst sl, (snd sl + n)%N), dflt)
+    end.
+  Definition lans (sl : St * N) (q : Q) : V := ans (fst sl) q.
+
+  Variable A : Type.
+  Variable spec : N -> A -> C -> res O -> option A.
+  Variable chk : A -> Q * V -> bool.
+  Variable cross : A -> list (Q * V) -> bool.
+
+  Definition lspec (al : A * N) (k : tcall C) (o : res O) : option (A * N) :=
+    match k with
+    | Call c => match spec (snd al) (fst al) c o with
+                | Some a' => Some (a', snd al)
+                | None => None
+                end
+    | Advance n => match o with Ok _ => Some (fst al, (snd al + n)%N) | Fail => None end
+    end.
+  Definition lchk (al : A * N) (qa : Q * V) : bool := chk (fst al) qa.
+  Definition lcross (al : A * N) (qas : list (Q * V)) : bool := cross (fst al) qas.
+  Definition lmon := mon_of lspec lchk lcross.
+
+  Variable Rel : St -> A -> Prop.
+  Definition lRel (sl : St * N) (al : A * N) : Prop := Rel (fst sl) (fst al) /\ snd sl = snd al.
+
+  Hypothesis Hstep : forall now s a cq, Rel s a ->
+    exists a', mon_of (spec now) chk cross a (model_ev (step now) ans s cq) = Some a'
+               /\ Rel (step_state (step now) s (fst cq)) a'.
+  Hypothesis Hchk : forall s a q, Rel s a -> chk a (q, ans s q) = true.
+  Hypothesis Hcross : forall s a qs, Rel s a -> cross a (map (fun q => (q, ans s q)) qs) = true.
+
+  Lemma lmon_step sl al (cq : tcall C * list Q) : lRel sl al ->
+    exists al', lmon al (model_ev lstep lans sl cq) = Some al' /\ lRel (step_state lstep sl (fst cq)) al'.
+  Proof.
+    intros [HR Hn]. destruct sl as [s now], al as [a now']. cbn [fst snd] in *. subst now'.
+    destruct cq as [[c|n] qs].
+    - destruct (Hstep now (c, qs) HR) as [a' [E HR']].
+      unfold lmon, mon_of, model_ev, step_out, step_state in *. cbn [fst snd lstep lspec] in *.
+      destruct (step now s c) as [[s' o]|]; cbn [fst snd] in *.
+      + destruct (spec now a c (Ok o)) as [a1|]; [|discriminate]. unfold lchk, lcross, lans. cbn [fst snd].
+        destruct (forallb (chk a1) (map (fun q => (q, ans s' q)) qs) && cross a1 (map (fun q => (q, ans s' q)) qs));
+          [|discriminate].
+        inversion E. subst a1. exists (a', now). split; auto. split; auto.
+      + destruct (spec now a c Fail) as [a1|]; [|discriminate]. unfold lchk, lcross, lans. cbn [fst snd].
+        destruct (forallb (chk a1) (map (fun q => (q, ans s q)) qs) && cross a1 (map (fun q => (q, ans s q)) qs));
+          [|discriminate].
+        inversion E. subst a1. exists (a', now). split; auto. split; auto.
+    - unfold lmon, mon_of, model_ev, step_out, step_state. cbn [fst snd lstep lspec].
+      unfold lchk, lcross, lans. cbn [fst snd]. exists (a, (now + n)%N).
+      rewrite (Hcross qs HR), andb_true_r.
+      assert (Hf : forallb (fun qa => chk a qa) (map (fun q => (q, ans s q)) qs) = true).
+      { apply forallb_forall. intros [q v] Hin. apply in_map_iff in Hin.
+        destruct Hin as [q' [E _]]. inversion E. subst. apply Hchk. auto. }
+      rewrite Hf. split; [reflexivity|split; auto].
+  Qed.
+End Ledger.
